@@ -110,13 +110,15 @@ class Report:
         counts = {}
         for o in self.obs:
             counts[o.rule] = counts.get(o.rule, 0) + 1
-        any_violation = any((not o.ok) and (not o.info) for o in self.obs)
+        known, fixed = load_known()
+        # (a listed known finding is not a reason to stop counting instances)
+        any_violation = any((not o.ok) and (not o.info) and not any(k["property"] == self.prop and k["rule"] == o.rule and k["site"] == o.key() for k in known)
+                            for o in self.obs)
         for rule, (n, what) in self.floors.items():
             if counts.get(rule, 0) < n and not any_violation:
                 # (with a violation present the missing construct is already reported; the count drop is its consequence)
                 raise AnalysisBroken("rule %s matched %d instance(s), floor is %d (%s)" %
                                      (rule, counts.get(rule, 0), n, what))
-        known, fixed = load_known()
         violations = []
         known_hits = []
         for o in self.obs:
